@@ -41,8 +41,10 @@ ObsLoggerOK(s, l, o) ==
     \* every selected destination receives the record once per occurrence in the list, nothing else
     \* receives anything (the order of Write calls across destinations is not part of the property)
     /\ Has(o, "dest") => \A x \in 1..Len(o.dest) : SameBag(Written(o.dest[x].evs), Dest(s, l, o.dest[x].r))
+    \* C01: per severity, every entry point decides as the admission rule says
     /\ Has(o, "gate") => \A x \in 1..Len(o.gate) :
-            o.gate[x].out = (IF o.gate[x].ep = "Verbose" THEN FALSE ELSE Emits(s, l, o.gate[x].r))
+            IF Emits(s, l, o.gate[x].r) THEN o.gate[x].no = <<>> ELSE o.gate[x].yes = <<>>
+    /\ Has(o, "verbose") => o.verbose = FALSE
 
 ObsMatch(s, e, s2) ==
     /\ Has(e, "ret") => e.ret = Ret(s, e, s2)
